@@ -825,6 +825,7 @@ pub enum Statement<'a> {
         decorators: Vec<Decorator<'a>>,
         type_annotation: Option<TypeAnnotation>,
         type_scheme: TypeScheme,
+        readable_type: Markup,
     },
     DefineDerivedUnit {
         name: &'a str,
@@ -927,8 +928,13 @@ impl Statement<'_> {
                 }
             }
             Statement::DefineDimension(_, _) => {}
-            Statement::DefineBaseUnit { .. } => {}
-            Statement::DefineDerivedUnit {
+            Statement::DefineBaseUnit {
+                type_annotation,
+                type_scheme,
+                readable_type,
+                ..
+            }
+            | Statement::DefineDerivedUnit {
                 type_annotation,
                 type_scheme,
                 readable_type,
